@@ -1631,6 +1631,10 @@ impl Built {
 // Argument generation
 // ---------------------------------------------------------------------------
 
+/// Standard text and graphics geometries (columns×rows / width×height).
+const VIDEO_MODES: [(u64, u64); 10] =
+    [(80, 25), (80, 50), (132, 43), (320, 200), (640, 480), (800, 600), (1024, 768), (1280, 1024), (1920, 1080), (3840, 2160)];
+
 /// Per-run (swarm) knobs for argument generation.
 #[derive(Clone, Copy, Debug)]
 pub struct GenKnobs {
@@ -1804,6 +1808,13 @@ pub fn gen_args(c: Ctor, rng: &mut Rng, k: &GenKnobs) -> (Vec<u64>, Vec<Vec<u8>>
                 1 => rng.bytes(6),
                 _ => vec![],
             };
+            if rng.chance(1, 4) {
+                // a standard video mode: geometry, depth and pitch that belong together
+                let (w, h) = *rng.pick(&VIDEO_MODES);
+                let bpp = *rng.pick(&[4u64, 8, 15, 16, 24, 32]);
+                let addr = *rng.pick(&[0xB8000u64, 0xA0000, 0xE000_0000, 0xFD00_0000, 0x1_0000_0000]);
+                return (vec![addr, w * ((bpp + 7) / 8), w, h, bpp, kind], vec![b]);
+            }
             (vec![sc(rng, 64), sc(rng, 32), sc(rng, 32), sc(rng, 32), sc(rng, 8), kind], vec![b])
         }
         Ctor::ElfSections => {
@@ -1951,7 +1962,14 @@ pub fn gen_args(c: Ctor, rng: &mut Rng, k: &GenKnobs) -> (Vec<u64>, Vec<Vec<u8>>
         Ctor::HAddress => (vec![rng.below(2), sc(rng, 32), sc(rng, 32), sc(rng, 32), sc(rng, 32)], vec![]),
         Ctor::HEntryAddress | Ctor::HEntryEfi32 | Ctor::HEntryEfi64 => (vec![rng.below(2), sc(rng, 32)], vec![]),
         Ctor::HConsole => (vec![rng.below(2), rng.below(2)], vec![]),
-        Ctor::HFramebuffer => (vec![rng.below(2), sc(rng, 32), sc(rng, 32), sc(rng, 32)], vec![]),
+        Ctor::HFramebuffer => {
+            if rng.chance(1, 4) {
+                let (w, h) = *rng.pick(&VIDEO_MODES);
+                let depth = *rng.pick(&[0u64, 4, 8, 15, 16, 24, 32]);
+                return (vec![rng.below(2), w, h, depth], vec![]);
+            }
+            (vec![rng.below(2), sc(rng, 32), sc(rng, 32), sc(rng, 32)], vec![])
+        }
         Ctor::HModuleAlign | Ctor::HEfiBs => (vec![rng.below(2)], vec![]),
         Ctor::HRelocatable => (vec![rng.below(2), sc(rng, 32), sc(rng, 32), sc(rng, 32), rng.below(3)], vec![]),
         Ctor::HTagHdrNew => (vec![rng.below(11), rng.below(2), sc(rng, 32)], vec![]),
